@@ -45,6 +45,8 @@ CMDS = [
     "REST 3", "REST 0", "REST abc", "REST ٣", "REST ²", "REST -1", "REST  3", "REST 100", "REST",
     "TYPE I", "TYPE A", "TYPE X", "PROT P", "PROT C", "PBSZ 0", "SYST", "ABOR", "QUIT",
     "NOOP", "FOO bar", "", "pwd", "PwD", "Pwd  ", "MKD kelvin",
+    # pathlib keeps a root of exactly two slashes: arguments spelled that way
+    "CWD //d", "MLST //f.txt", "MKD //d/two", "DELE //d/g.txt", "CWD ///d", "RNFR //f.txt",
 ]
 PAYLOAD = b"PAYLOAD-xyz"
 
